@@ -41,6 +41,10 @@ def jobs(tier):
         J.append(Job("c11", "popall", "2,0,0,0" if q else "3,0,0,0", p))
         if s == 0:
             J.append(Job("c11", "repush", "2,0,0,0" if q else "3,0,0,0", p))
+    # pop_all result walked with the non-blocking iterator while pushes are in flight
+    for sy in (0, 1):
+        J.append(Job("c11", "popall", "2,0,0,0" if q else "3,0,0,0", {"kind": 0, "sync": sy, "nb_iter": 1}))
+        J.append(Job("c11", "popall", "1,1,0,0", {"kind": 0, "sync": sy, "nb_iter": 1}))
     J.append(Job("c11", "pp", "2,0,0,0", {"kind": 0, "sync": 1, "nonblocking": 1, "api2": 1}))
     J.append(Job("c11", "pp", "2,0,0,0", {"kind": 0, "sync": 1, "nonblocking": 1}))
     J.append(Job("c11", "last", "3,0,0,0", {"kind": 0, "sync": 1, "nonblocking": 1}))
